@@ -20,21 +20,41 @@ from . import c10_gen as G
 
 MANIFEST = {
     "text": "Coq theorems about an executable model of stix2.pattern_visitor / stix2.patterns over the STIX 2.1 pattern "
-            "grammar as a datatype of parse trees: for every well-formed tree the visitor yields an object with the same "
-            "meaning (comparison, negation, operator, constant, path step, qualifier, grouping); the printed tokens of every "
-            "object the visitor yields are the yield of a parse tree that the visitor maps back to the same object (print is a "
-            "fixed point); every object assembled from the public classes that is well grouped (syntactic predicate), printable "
-            "and constructible has a parse tree with exactly its printed tokens which the visitor reads back to an object with the "
-            "same meaning; escaped string constants read back to the same string.  Thirteen deviations of the tree as found are "
-            "variant parameters (detected at run time) with refutation witnesses.  The model is tied to /repo on every run by a "
-            "correspondence run against the real ANTLR parser and visitor, and by a source-text translator (tr_visitor: child "
-            "indices per visit method, instantiated classes, variant sites, __str__ templates, escape / quote_if_needed / "
-            "make_constant) whose facts Props/C10Src.v equates with the tables the model transcribes.",
+            "grammar as a datatype of parse trees, all for the fully repaired variant of the code (which Props/C10Src.v shows "
+            "the current source text to be).  Every theorem about parse trees is for trees that are well formed AND inside the "
+            "side condition `sem` (Spec/PatternSpec.v), which EXCLUDES: (1) EXISTS comparisons -- valid STIX 2.1, but the visitor "
+            "has no visitPropTestExists and fails on them under every variant (theorem visit_refuted_exists, known finding "
+            "C10-exists-unhandled); (2) an index step directly after an index step, a:b[1][2] (AttributeError, known finding); "
+            "(3) timestamps Python's datetime cannot hold: second 60, more than 6 fraction digits, year 0, unreal dates (known "
+            "finding C10-timestamp-unrepresentable); (4) ANDs of comparisons with no common object type (refused deliberately by "
+            "the library); (5) floats with more than 15 significant digits or more than 300 integer / fraction digits (`fshort`): "
+            "the model keeps every digit of a float, Python rounds beyond that, so outside the bound the model is not a model of "
+            "the library and nothing is claimed.  Within wf and sem: the visitor yields an object with the same meaning "
+            "(comparison, negation, operator, constant, path step, qualifier, grouping), and is the plain structural function "
+            "sv_fb; the printed tokens of every object the visitor yields are the yield of a parse tree, again wf and in sem, that "
+            "the visitor maps back to the same object and that has the meaning of the original tree (print is a fixed point); "
+            "every object assembled from the public classes that is well grouped (syntactic predicate), printable (`aprint`: names "
+            "and constants that print to single tokens, floats fshort) and constructible has a parse tree (wf, in sem) with "
+            "exactly its printed tokens which the visitor reads back to an object with the same MEANING -- not the same "
+            "structure: n-ary chains are read as the text reads them, And(And(x,y),z) prints and reads back as And(x,y,z); "
+            "escaped string constants read back to the same string (the only statement at character level).  NOT modelled or "
+            "proved: that the lexer cuts the characters of str(a) into exactly the tokens `print a` (maximal munch, spacing), "
+            "the ANTLR parser, and unambiguity of the grammar -- these are trusted and exercised by the run-time comparison only.  "
+            "Thirteen deviations of the tree as found are variant parameters (detected at run time) with refutation witnesses.  "
+            "The model is tied to /repo on every run by a correspondence run against the real ANTLR parser and visitor (tree "
+            "shape, visitor result, str(), the real lexer's tokens of str() against `print`, meaning, re-parse), and by a "
+            "source-text translator (tr_visitor: child indices per visit method, instantiated classes, variant sites, __str__ "
+            "templates, escape / quote_if_needed / make_constant) whose facts Props/C10Src.v equates with the tables the model "
+            "transcribes, including that the variant record the source flags denote is `repaired`.",
     "design_ref": "DESIGN.md 6/C10, Appendix A.6",
-    "note": "Trusted: Coq kernel + vm_compute, the hand-written model (compared with the implementation on every run, parse "
-            "trees included), the ANTLR parser of stix2patterns (grammar unambiguity is not proved: Appendix A.6), the reading of "
-            "'meaning' in harness/impl/c10_impl.py. Floats are modelled exactly up to 15 significant digits. The installed 2.0 grammar "
-            "(= 2.1 without EXISTS) is run through the same model lines and oracle.",
+    "note": "Trusted: Coq kernel + vm_compute; the hand-written model (compared with the implementation on every run, parse "
+            "trees included); the ANTLR lexer and parser of stix2patterns and the unambiguity of the grammar (not proved: "
+            "Appendix A.6) -- in particular the step from the characters of str(a) to the token list `print a` is not modelled, "
+            "only checked at run time on the generated cases; the reading of 'meaning' in harness/impl/c10_impl.py; that a "
+            "Python float holds a decimal of at most 15 significant digits in the normal range exactly (DBL_DIG; the `fshort` "
+            "hypothesis of sem and aprint is this bound, the generator stays inside it).  The installed 2.0 grammar (= 2.1 without "
+            "EXISTS) is run through the same model lines and oracle.  sv_lit falls back to CInt 0 on a token the visitor "
+            "rejects; unreachable under wf and sem (Proofs/PatternLit.v visit_lit: the visitor returns exactly sv_lit t there).",
     "technique": "Coq proof over a hand-written executable model + correspondence run against the real parser and visitor",
 }
 
